@@ -21,6 +21,8 @@ type vpVerifier struct {
 	wantMsg  []byte
 	wantTS   spec.Timestamp
 	failCall bool
+	// the key-validity rule handed to the verifier: does it accept a key whose valid_until_ts is "not valid" (0)?
+	lenientRule, strictRule bool
 }
 
 func (v *vpVerifier) VerifyJSONs(ctx context.Context, reqs []VerifyJSONRequest) ([]VerifyJSONResult, error) {
@@ -35,6 +37,13 @@ func (v *vpVerifier) VerifyJSONs(ctx context.Context, reqs []VerifyJSONRequest) 
 		}
 		if r.AtTS != v.wantTS {
 			v.tsOK = false
+		}
+		if r.ValidityCheckingFunc != nil {
+			if r.ValidityCheckingFunc(1000, PublicKeyNotValid) {
+				v.lenientRule = true
+			} else {
+				v.strictRule = true
+			}
 		}
 		if v.bad[r.ServerName] {
 			res[i].Error = errors.New("bad signature")
@@ -52,10 +61,11 @@ func vpAsked(v *vpVerifier, s spec.ServerName) bool {
 	return false
 }
 
-// vp:check C06 both configs=version:1|2|3|7|8|9|10|11|12|org.matrix.msc3787|org.matrix.msc3667 K=12 timeout=900
+// vp:check C06 both configs=version:ALLVERSIONS K=12 timeout=900
 // vp_C06_signers: VerifyEventSignatures consults exactly the protocol-required servers (sender's; v1/v2: event ID's;
 // invite: invited user's; join with join_authorised_via_users_server where restricted joins exist: that user's), each
-// with the redacted event and its origin_server_ts, and succeeds iff every one of them verifies.
+// with the redacted event, its origin_server_ts and the key-validity rule of the room version (strict from version 5),
+// and succeeds iff every one of them verifies.
 func vp_C06_signers() {
 	ver := RoomVersion(vpConfig("version"))
 	verImpl, err := GetRoomVersion(ver)
@@ -123,6 +133,8 @@ func vp_C06_signers() {
 		}
 		vpAssert("message-is-redacted-event", v.msgOK)
 		vpAssert("timestamp-is-origin-server-ts", v.tsOK)
+		// every request carries the key-validity rule of the room version: strict from version 5 on
+		vpAssert("key-validity-rule-of-the-version", v.strictRule == (n >= 5) && v.lenientRule == (n < 5))
 	}
 	vpReach("accepted", got)
 	vpReach("rejected", !got && !v.failCall)
